@@ -9,7 +9,7 @@ CONSTANTS
   MaxOps,       \* bound on the number of operations of a behaviour (0 = unbounded)
   Emit,         \* "none" | "states" | "classes" : which behaviours are printed for replay
   RootViaSet,   \* subset of RootVias used for root edits
-  WithBarrierOnly, WithFinalize, WithDrop, WithMany,
+  WithBarrierOnly, WithFinalize, WithDrop, WithMany, WithWeak, WithUnlink,
   FaultAts      \* set of trace-call indices at which a trace panic may be injected ({} = no faults)
 
 VARIABLES h, hist
@@ -24,7 +24,7 @@ Init == h = EmptyHeap /\ hist = <<>>
 Do(s2, op) == h' = s2 /\ hist' = Append(hist, op)
 
 Running == h.phase # "Dropped"
-A == Acc(h)
+A == Ordinary(h)
 
 \* ---------------------------------------------------------------- mutator
 AllocRootA ==
@@ -117,6 +117,28 @@ LinkByManyA ==
        /\ Do(Mut([Forward(h, NoObj, c) EXCEPT !.strong[p1] = Append(@, c), !.strong[p2] = Append(@, c)]),
              [op |-> "link_by_many", c |-> c, p1 |-> p1, p2 |-> p2])
 
+\* ---------------------------------------------------------------- dynamic roots (C14)
+FreeHandles == {i \in 1..MaxHandles : h.handles[i] = NoHandle}
+UsedHandles == {i \in 1..MaxHandles : h.handles[i] # NoHandle}
+NewSetA ==
+  /\ MaxHandles > 0 /\ Len(h.rootD) < 2
+  /\ \E o \in FreeIds(h) : Do(NewSet(h, o), [op |-> "new_set", o |-> o])
+RemoveSetA ==
+  \E d \in Range(h.rootD) : Do(RemoveSet(h, d), [op |-> "remove_set", d |-> d])
+StashA ==
+  \E d \in Range(h.rootD), c \in A, hid \in FreeHandles :
+    /\ h.kind[c] = "N" /\ hid = CHOOSE x \in FreeHandles : \A y \in FreeHandles : x <= y
+    /\ Do(Stash(h, d, c, hid), [op |-> "stash", d |-> d, c |-> c, hid |-> hid])
+\* handles live outside the arena: these two are enabled in every phase, also after the arena is gone
+CloneHandleA ==
+  \E hid \in UsedHandles, hid2 \in FreeHandles :
+    /\ hid2 = CHOOSE x \in FreeHandles : \A y \in FreeHandles : x <= y
+    /\ Do(CloneHandle(h, hid, hid2), [op |-> "clone_handle", hid |-> hid, hid2 |-> hid2])
+DropHandleA ==
+  \E hid \in UsedHandles : Do(DropHandle(h, hid), [op |-> "drop_handle", hid |-> hid])
+DynMutator == NewSetA \/ RemoveSetA \/ StashA
+HandleOps == CloneHandleA \/ DropHandleA
+
 \* ---------------------------------------------------------------- collector
 CallA ==
   \/ \E kind \in {"finish_marking", "finish_cycle"} :
@@ -168,17 +190,18 @@ FinalizeA ==
   /\ WithFinalize
   /\ h.phase # "Sweep"
   /\ LET s1 == FinishMarking(h) IN
-     \E t \in Acc(s1) \cup {NoObj} :
+     \E t \in Ordinary(s1) \cup {NoObj} :
        Do(Finalize(s1, t), [op |-> "finalize", t |-> t])
 
 DropArenaA == WithDrop /\ Do(DropAll(h), [op |-> "drop_arena"])
 
-Mutator == \/ AllocRootA \/ AllocIntoA \/ AllocTempA \/ LinkA \/ UnlinkA \/ RootAddA \/ RootRemoveA
-           \/ WLinkA \/ WUnlinkA \/ RootWAddA \/ RootWRemoveA \/ BarrierOnlyA \/ LinkManyA \/ LinkByManyA
-           \/ UpgradeStoreA \/ PanicCbA
+Mutator == \/ AllocRootA \/ AllocIntoA \/ AllocTempA \/ LinkA \/ RootRemoveA
+           \/ (WithUnlink /\ (UnlinkA \/ RootAddA))
+           \/ (WithWeak /\ (WLinkA \/ WUnlinkA \/ RootWAddA \/ RootWRemoveA \/ UpgradeStoreA))
+           \/ BarrierOnlyA \/ LinkManyA \/ LinkByManyA \/ PanicCbA
 Collector == CallA \/ StartSweepingA \/ FinalizeA \/ CallFaultA
 
-Next == Running /\ (Mutator \/ Collector \/ DropArenaA)
+Next == (Running /\ (Mutator \/ DynMutator \/ Collector \/ DropArenaA)) \/ HandleOps
 
 Spec == Init /\ [][Next]_vars
 
@@ -287,7 +310,32 @@ C07_DeadExact ==
 C07_ResurrectHolds ==
   \A t \in h.resurrected : \A o \in ReachFrom(h, {t}) : h.alive[o] /\ h.live[o]
 
-PropertyInvs == /\ C01_NoLostReachable /\ AccSafe /\ C02_Exact /\ C04_DropAll
+\* C14 -- structure of the slot tables
+RECURSIVE FreeChain(_, _, _)
+FreeChain(sl, i, n) == IF i = 0 \/ n = 0 THEN <<>> ELSE <<i>> \o FreeChain(sl, sl[i].nf, n - 1)
+HandlesOn(d, i) == {k \in 1..MaxHandles : h.handles[k].set = d /\ h.handles[k].gen = h.gen[d] /\ h.handles[k].idx = i}
+C14_SlotsWF ==
+  \A d \in Obj : h.live[d] /\ h.kind[d] = "D" =>
+    LET sl == h.slots[d]  fc == FreeChain(sl, h.freeHead[d], Len(sl) + 1) IN
+    /\ Len(fc) = Cardinality(Range(fc))                                   \* the free list is acyclic ...
+    /\ Range(fc) = {i \in DOMAIN sl : ~sl[i].occ}                         \* ... and is exactly the vacant slots
+    /\ \A i \in DOMAIN sl : sl[i].occ => sl[i].rc + 1 = Cardinality(HandlesOn(d, i))   \* refcount = handles - 1
+    /\ \A i \in DOMAIN sl : ~sl[i].occ => HandlesOn(d, i) = {}
+    /\ h.strong[d] = DerivedKids(sl)
+\* slot reuse never changes what a live handle resolves to
+C14_HandleResolves ==
+  \A k \in 1..MaxHandles : LET hd == h.handles[k] IN
+    HandleValid(h, hd) => h.slots[hd.set][hd.idx].occ /\ h.slots[hd.set][hd.idx].obj = hd.obj
+\* a stashed object, and everything reachable from it, lives while a handle for it exists and
+\* its set is reachable from the root
+C14_KeepsAlive ==
+  \A k \in 1..MaxHandles : LET hd == h.handles[k] IN
+    HandleValid(h, hd) /\ hd.set \in Reach(h) =>
+      \A o \in ReachFrom(h, {hd.obj}) : h.alive[o] /\ h.live[o]
+\* ("collectable once the last handle is dropped" is C02_Exact: Reach no longer contains it)
+C14_Invs == C14_SlotsWF /\ C14_HandleResolves /\ C14_KeepsAlive
+
+PropertyInvs == /\ C01_NoLostReachable /\ C14_Invs /\ AccSafe /\ C02_Exact /\ C04_DropAll
                 /\ C05_WeakBlock /\ C05_UpgradeComplete /\ C05_UpgradeSound
                 /\ C07_NoDeadReachable /\ C07_DeadExact /\ C07_ResurrectHolds
 
@@ -297,6 +345,7 @@ PropertyInvs == /\ C01_NoLostReachable /\ AccSafe /\ C02_Exact /\ C04_DropAll
 (***************************************************************************)
 LastOp == hist'[Len(hist')]
 IsMutatorStep == hist' # hist /\ LastOp.op \notin {"call", "start_sweeping", "finalize", "drop_arena", "failed_map_root", "failed_new"}
+                                /\ h.phase # "Dropped"
                                 /\ h'.phase # "Dropped"
 
 \* C03: a callback never destructs or releases anything, and never changes the phase except
@@ -365,7 +414,15 @@ PosOf(s, o) == IF s.phase # "Sweep" \/ o = NoObj THEN "-" ELSE IF o \in Unswept(
 Fld(op, f) == IF f \in DOMAIN op THEN op[f] ELSE NoObj
 ClassOf(s, op, s2) ==
   LET p == Fld(op, "p")  c == IF "c" \in DOMAIN op THEN op.c ELSE IF "t" \in DOMAIN op THEN op.t ELSE Fld(op, "o") IN
-  IF op.op \in {"call", "start_sweeping", "finalize", "drop_arena", "failed_map_root", "failed_new"}
+  IF op.op \in {"new_set", "remove_set", "stash", "clone_handle", "drop_handle"}
+  THEN LET d == IF "d" \in DOMAIN op THEN op.d
+                ELSE IF "hid" \in DOMAIN op THEN s.handles[op.hid].set ELSE NoObj
+           hv == "hid" \in DOMAIN op /\ op.op # "stash" /\ HandleValid(s, s.handles[op.hid])
+       IN <<op.op, ObsPhase(s), Col(s, d), Col(s, Fld(op, "c")), PosOf(s, d), PosOf(s, Fld(op, "c")), hv,
+            IF d # NoObj /\ s.alive[d] THEN <<s.freeHead[d] # 0, Len(s.slots[d]),
+                                               IF hv THEN s.slots[d][s.handles[op.hid].idx].rc ELSE 0>> ELSE <<>>,
+            d # NoObj /\ d \in Range(s.rootD), s2.grayAgain # s.grayAgain>>
+  ELSE IF op.op \in {"call", "start_sweeping", "finalize", "drop_arena", "failed_map_root", "failed_new"}
   THEN <<op.op, Fld(op, "kind"), Fld(op, "g"), Fld(op, "cont"), Fld(op, "fault"), ObsPhase(s), ObsPhase(s2),
          IF op.op = "call" THEN CallSig(s, op.kind, op.b, op.g, op.cont, IF "fault" \in DOMAIN op THEN op.fault ELSE NoFaultRec)
          ELSE IF op.op \in {"start_sweeping", "finalize"} /\ s.phase # "Sweep"
